@@ -25,6 +25,9 @@ func lockList(m map[string]bool) string {
 }
 
 func runC11(p *Prog, r *Report) {
+	derivedCoherent(p, r, "C11.16/derived-coherent", func(rel string) bool {
+		return strings.HasPrefix(rel, "protocol/") || strings.HasPrefix(rel, "transport") || rel == "internal/core"
+	})
 	publishOrder(p, r, "C11.11/publish-order", func(rel string) bool {
 		return strings.HasPrefix(rel, "protocol/") || strings.HasPrefix(rel, "transport") || rel == "internal/core"
 	})
